@@ -160,7 +160,7 @@ class Check(PropertyCheck):
                   "round trips for versions 10..20). "
                   "trusted: Lean kernel, the AST-based translator (reads `data[\"version\"] = …` in each converter).")
     technique = "Lean 4 proof over a table regenerated from the source (decide +kernel + lemmas) + differential migration runs"
-    rule = ("kinds: dump (each shipped dumpfile: load, validity, re-save/re-load equality, golden digest), current (random "
+    rule = ("kinds: dumpperm (records of a shipped multi-record dump in another admissible order load as the same flows), conv (one converter step vs the Lean converter), dump (each shipped dumpfile: load, validity, re-save/re-load equality, golden digest), current (random "
             "current-format flows must pass migration unchanged), downgrade (random current flow restricted to what version v "
             "could express, inverse-converted down to v in 10..20, migrated forward, compared), future (unknown versions). "
             "distinct = distinct (kind, parameters); non-trivial = kind != dump-metadata-only.")
@@ -219,10 +219,17 @@ class Check(PropertyCheck):
                 yield {"kind": "dumpmut", "file": os.path.relpath(p, REPO), "edit": edit, "n": 1}
         for v in [22, 23, 100, 2 ** 40, 0, -1, 3, [0, 10], [0, 20], [3, 1], [4, 0], [1, 1], [21, 0]]:
             yield {"kind": "future", "version": v}
+        # records of one old file in another order an old mitmproxy could have written them (connections overlapping in time)
+        multi = [p for p in self._dumps() if len(split_records(open(p, "rb").read())) > 1]
+        for p in multi:
+            for i in range(12):
+                yield {"kind": "dumpperm", "file": os.path.relpath(p, REPO), "perm_seed": i}
         while True:
             r = rng.random()
             st = self._rand_flow_state(rng)
-            if r < 0.12:
+            if r < 0.04 and multi:
+                yield {"kind": "dumpperm", "file": os.path.relpath(rng.choice(multi), REPO), "perm_seed": rng.randint(12, 10 ** 9)}
+            elif r < 0.12:
                 dumps = self._dumps()
                 yield {"kind": "dumpmut", "file": os.path.relpath(rng.choice(dumps), REPO), "edit": rng.choice(DUMP_EDITS),
                        "n": rng.randint(2, 10 ** 6)}
@@ -292,6 +299,19 @@ class Check(PropertyCheck):
             except Exception as e:
                 resave = f"{type(e).__name__}: {e}"[:160]
             return {"want": want, "got": got, "resave": resave}
+        if k == "dumpperm":
+            raw = open(os.path.join(REPO, case["file"]), "rb").read()
+            recs = split_records(raw)
+            order = interleaving(recs, case["perm_seed"])
+            if order == list(range(len(recs))): raise Skip()
+            def load(bs):
+                try:
+                    return sorted(digest(_strip_volatile([f.get_state()])) for f in mio.FlowReader(_io.BytesIO(bs)).stream())
+                except exceptions.FlowReadException as e:
+                    return "rejected: " + str(e)[:120]
+            ref = load(raw)
+            got = load(b"".join(recs[i] for i in order))
+            return {"order": order, "ref": ref, "got": got}
         if k == "current":
             st = canon_out(case["state"])
             out = compat.migrate_flow(copy.deepcopy(st))
@@ -411,6 +431,13 @@ class Check(PropertyCheck):
             if "error" in obs: fails.append(f"{case['file']} with {case['edit']} edited does not load: {obs['error']}")
             elif obs["got"] != obs["want"]: fails.append(f"{case['file']}: old field {case['edit']} = {obs['want']!r} loads as {obs['got']!r}")
             elif obs["resave"] != "ok": fails.append(f"{case['file']} with {case['edit']} edited cannot be re-saved/re-loaded to the same state: {obs['resave']}")
+        elif k == "dumpperm":
+            # "Every flow file written by a supported older mitmproxy version … loads into valid current flows": the same
+            # records written in another admissible order (each websocket record after its handshake) are the same flows
+            if obs["got"] != obs["ref"]:
+                fails.append(f"{case['file']} with its records in the order {obs['order']} loads as different flows than in the shipped order "
+                             f"({len(obs['got']) if isinstance(obs['got'], list) else obs['got']} vs {len(obs['ref']) if isinstance(obs['ref'], list) else obs['ref']} flows; "
+                             f"{sum(1 for x in obs['got'] if x not in obs['ref']) if isinstance(obs['got'], list) and isinstance(obs['ref'], list) else '?'} differ)")
         elif k == "current":
             # "current-format flow states pass through migration unchanged"
             if not obs["unchanged"]: fails.append("current-format state changed by migrate_flow")
@@ -480,12 +507,14 @@ class Check(PropertyCheck):
     def classify(self, case, obs):
         if case["kind"] == "dump": return ("dump", case["file"])
         if case["kind"] == "dumpmut": return ("dumpmut", case["file"], case["edit"], case["n"])
+        if case["kind"] == "dumpperm": return ("dumpperm", case["file"], tuple(obs["order"]) if obs and "order" in obs else case["perm_seed"])
         if case["kind"] == "future": return ("future", str(case["version"]))
         if case["kind"] == "conv": return ("conv", case["v"], case.get("tweak"), digest(case["state"]))
         return (case["kind"], case.get("to"), digest(case["state"]))
 
     def branches(self, case, obs):
         if case["kind"] == "dumpmut": return ["dumpmut:" + case["edit"]]
+        if case["kind"] == "dumpperm": return ["dumpperm:" + os.path.basename(case["file"])]
         if case["kind"] == "conv": return ["conv:v%d" % case["v"], "conv-tweak:%s" % case.get("tweak")]
         return [case["kind"] + (":v%d" % case["to"] if case["kind"] == "downgrade" else "")]
 
@@ -510,6 +539,35 @@ class Check(PropertyCheck):
 CONV_MODELLED = [10, 11, 12, 13, 14, 15, 16, 17, 19, 20]
 CONV_TWEAKS = {10: ["sni-bytes", "sni-bytes", "sni-none", "empty-lists"], 12: ["marked-true", "marked-false"], 13: ["ts-null", "ts-null"],
                15: ["no-request"], 20: ["quic", "quic-server"]}
+def split_records(raw):
+    """the byte slices of the tnetstring records of a flow file"""
+    f = _io.BytesIO(raw); out = []; pos = 0
+    while True:
+        try: tnetstring.load(f)
+        except ValueError: break
+        out.append(raw[pos:f.tell()]); pos = f.tell()
+    return out
+
+
+def interleaving(recs, seed):
+    """a pseudo-random order of the records that keeps every websocket record behind its handshake record and the
+    records of one connection in their shipped order (what overlapping connections would have produced)"""
+    import random
+    def g(d, k): return d.get(k, d.get(k.encode() if isinstance(k, str) else k))
+    def s_(x): return x.decode() if isinstance(x, bytes) else x
+    groups = {}; order_of_groups = []
+    for i, r in enumerate(recs):
+        d = tnetstring.loads(r); md = g(d, "metadata") or {}
+        hs = g(md, "websocket_handshake")
+        key = s_(hs) if hs is not None else s_(g(d, "id"))
+        if key not in groups: groups[key] = []; order_of_groups.append(key)
+        groups[key].append(i)
+    rnd = random.Random(seed); queues = [list(groups[k]) for k in order_of_groups]; out = []
+    while any(queues):
+        q = rnd.choice([q for q in queues if q]); out.append(q.pop(0))
+    return out
+
+
 DUMP_EDITS = ["error", "req_content", "resp_content", "status", "host", "port", "path", "req_header", "resp_reason"]
 
 
